@@ -65,6 +65,10 @@ let () =
             BWalls (k, lk, uk, hl, hu, List.init n (fun _ -> let i = ni () in let lo = nf () in let up = nf () in (nat_of_int i, (lo, up))))
           | "linear" -> let k = nf () in let n = ni () in
             BLinear (k, List.init n (fun _ -> let i = ni () in let c = nf () in (nat_of_int i, c)))
+          | "meta" -> let nh = ni () in
+            BMeta (List.init nh (fun _ -> let wgt = nf () in let n = ni () in
+              (wgt, List.init n (fun _ -> let i = ni () in let c = nf () in let sg = nf () in (nat_of_int i, (c, sg))))))
+          | "abmd" -> let k = nf () in let dec = nb () in let i = ni () in let rf = nf () in BAbmd (k, dec, nat_of_int i, rf)
           | s -> failwith ("bias " ^ s) in
         (try
           let na = ni () in
